@@ -1190,3 +1190,150 @@ def normalize_after_marker(ctx):
                       'normalisation on the marker path, so the last byte of the stream may stay unread in the source')
     else:
         ctx.ok(key, f.loc(b), 'every path from the end-marker branch to a return calls RangeDecoder::normalize')
+
+
+@rule('NORMALIZE-AT-END', ['C16'], floor=1)
+def normalize_at_end(ctx):
+    """Every symbol decoder normalises the range coder BEFORE its first bit, so after the last symbol of a stream one
+    input byte can still be owed. `LZMADecoder::decode` pays it with a final `RangeDecoder::normalize` before it
+    returns Ok: every owner relies on that (LZMAReader with a declared size and no end marker returns as soon as the
+    size is reached and hands the source back; LZIP and LZMA2 check `is_finished` right after). Obligation: no
+    `Ok(..)` result of the symbol-loop function (the LZMADecoder method that calls the window's copy method and takes
+    the range decoder) is built on a path from the entry that does not pass a normalize call. Hoisting the call to
+    'the owner' leaves the declared-size end of LZMAReader one byte short for about one stream in nine."""
+    F = ctx.facts
+    fs = [f for f in F.fns if f.self_adt and last_seg(f.self_adt) == 'LZMADecoder' and f.kind != 'closure' and f.loops()
+          and any(c.name == 'repeat' for _, _, c in f.calls()) and 'Result' in str(f.d.get('output'))]
+    if len(fs) != 1:
+        return ctx.anchor_missing('LZMADecoder symbol loop (method with a loop that calls LZDecoder::repeat and returns a Result)')
+    f = fs[0]
+    key = '%s:Ok-only-after-normalize' % f.key
+    norm = {bi for bi, t, c in f.calls() if c.name == 'normalize' and 'RangeDecoder' in c.path}
+    okb = []
+    for bi, b in enumerate(f.blocks):
+        if b['cleanup'] or bi not in f.reachable:
+            continue
+        for s in b['stmts']:
+            if s['k'] == 'assign' and s['lhs']['l'] == 0 and not s['lhs']['p'] and s['rv']['r'] == 'agg' and s['rv'].get('variant_name') == 'Ok':
+                okb.append(bi)
+    if not okb:
+        return ctx.violation(key, f.loc(0), 'the symbol loop builds no Ok result: anchor lost (fail closed)')
+    free = f.reach_from([0], stop=norm) | {0}
+    bad = [b for b in okb if b in free and b not in norm]
+    if bad:
+        ctx.violation(key, f.loc(bad[0]), 'an Ok result is reachable without RangeDecoder::normalize: the byte the last symbol still owes stays in the '
+                      'source, and a reader that stops on a declared size (no end marker) hands the source back one byte short')
+    else:
+        ctx.ok(key, f.loc(okb[0]), '%d normalize call(s); every Ok result is built behind one' % len(norm))
+
+
+def _end_flags(F, rf):
+    """(cands, flags): methods `read` forwards to on the same type, and the bool self fields whose truth leads straight to Ok(0)."""
+    adt = rf.self_adt
+    cands = [rf]
+    for bi, t, c in rf.calls():
+        for g in F.resolve_callee(c):
+            if g.self_adt == adt and g.kind != 'closure' and g not in cands:
+                cands.append(g)
+    flags = set()
+    for g in cands:
+        prov = Prov(g)
+        for s in g.reachable:
+            e = switch_edges(g, s)
+            if e is None:
+                continue
+            cond = prov.operand(g.blocks[s]['term']['discr'], 0, '%d:T' % s)
+            sf = self_field_of(cond)
+            if not sf or len(sf) != 1:
+                continue
+            region = g.reach_from([e[1]])
+            if len(region) <= 4 and any(b in g.return_blocks() for b in region) and not any(
+                    g.blocks[b]['term']['k'] == 'call' for b in region):
+                flags.add(sf[0])
+    return cands, flags
+
+
+END_GATE_EXCEPTIONS = {}
+
+
+@rule('END-FLAG-GATES', ['C16'], floor=3)
+def end_flag_gates(ctx):
+    """Across calls: a single-stream decoder that has reported the end of its stream must not touch the source when it is
+    called again (`io::copy` followed by a defensive `read_to_end`, a caller that polls) - what follows the stream belongs
+    to the caller. Each end flag (END-NO-PULL's notion: the bool field whose truth makes `read` return Ok(0) at once, and
+    that some method stores `true` into) gates the source: in `read`, every call that can pull from the source is only
+    reachable through the FALSE edge of a test of the flag, or is a call of a method of the same type for which the same
+    holds (recursively). A flag that is set at the end but no longer tested in front of the next header read lets every
+    further `read` parse the bytes behind the stream as a header."""
+    from lzlint.core import field_path
+    F = ctx.facts
+    pull = pulling_fns(F)
+    n = 0
+    for rf in read_impls(F):
+        adt = rf.self_adt
+        # scope = the three readers C16 names; LZIPReader gates its source by an Option that is emptied at the end of a
+        # member (a different idiom, and outside the property's wording), the filter readers have no stream end of their own
+        if not adt or last_seg(adt) not in ('LZMAReader', 'LZMA2Reader', 'XZReader'):
+            continue
+        cands, flags = _end_flags(F, rf)
+        set_true = set()
+        for g in [m for m in F.fns if m.self_adt == adt and m.kind != 'closure']:
+            for bi, b in enumerate(g.blocks):
+                for st in b['stmts']:
+                    if st['k'] == 'assign' and st['lhs']['l'] == 1 and st['lhs']['p'] and st['rv']['r'] == 'use':
+                        fp = field_path(st['lhs'])
+                        k = op_const(st['rv']['o'])
+                        if fp and len(fp) == 1 and k is not None and k.get('v') in (1, True):
+                            set_true.add(fp[0])
+        for flag in sorted(flags & set_true):
+            memo = {}
+
+            def ungated(g, depth=0):
+                """first pull site of g (block, callee, fn) not behind `!flag`, None if all are"""
+                if g.path in memo:
+                    return memo[g.path]
+                memo[g.path] = None          # cycles: assume gated
+                prov = Prov(g)
+                res = None
+                for bi, t, c in g.calls():
+                    tg = F.resolve_callee(c)
+                    direct = any(is_trait_call(c, READ_TRAITS, nm) for nm in ('read', 'read_exact'))
+                    if not (direct or any(h.path in pull for h in tg)):
+                        continue
+                    gated = False
+                    for sb, pol, cond in guards_of(g, bi, prov):
+                        p, cc = pol, cond
+                        while cc[0] == 'un' and cc[1] == 'Not':
+                            cc = cc[2]
+                            p = not p
+                        if cc[0] != 'bin' and self_field_of(cc) == (flag,) and not p:
+                            gated = True
+                    if gated:
+                        continue
+                    same = [h for h in tg if h.self_adt == adt and h.kind != 'closure']
+                    if same and not direct and depth < 4:
+                        sub = [ungated(h, depth + 1) for h in same]
+                        if all(x is None for x in sub):
+                            continue
+                        res = [x for x in sub if x is not None][0]
+                        break
+                    if (g.key, c.name) in END_GATE_EXCEPTIONS:
+                        ctx.exception('%s:%s:%s' % (g.key, flag, c.name), g.loc(bi), END_GATE_EXCEPTIONS[(g.key, c.name)])
+                        continue
+                    res = (bi, c, g)
+                    break
+                memo[g.path] = res
+                return res
+
+            n += 1
+            key = '%s:pulls-gated-by-%s' % (rf.key, flag)
+            bad = ungated(rf)
+            if bad:
+                bi, c, g = bad
+                ctx.violation(key, g.loc(bi), 'after the end of the stream was reported (`%s` is true) a further `read` can reach %s in %s, which pulls '
+                              'from the source, without passing the false edge of a test of `%s`: bytes behind the stream are consumed' % (
+                                  flag, c.name, g.key, flag))
+            else:
+                ctx.ok(key, rf.loc(0), 'every source pull reachable from read is behind `!%s`' % flag)
+    if n == 0:
+        ctx.anchor_missing('a single-stream reader with an end flag')
